@@ -528,8 +528,24 @@ class StdioClient:
                         await self._terminate_process()
                 except Exception as e:
                     logger.debug(f"Error during stdio client shutdown: {e}")
+                await self._release_stdout()
 
         return False
+
+    async def _release_stdout(self) -> None:
+        """Read what is left of the dead child's output so that its pipe reaches
+        end-of-file and is closed now. A stream whose reading was paused (a child
+        that floods its output) otherwise keeps its descriptor open until the
+        process object happens to be garbage-collected."""
+        stdout = getattr(self.process, "stdout", None) if self.process else None
+        if stdout is None or self.process.returncode is None:
+            return
+        try:
+            with anyio.move_on_after(0.5):
+                async for _ in stdout:
+                    pass
+        except Exception as e:
+            logger.debug(f"Error releasing child stdout: {e}")
 
     async def _terminate_process(self) -> None:
         """Terminate the helper process gracefully, with shorter timeouts."""
